@@ -4,6 +4,7 @@
    spelled out here and proved from the lemma of the same name under `Peppi/` (generated once by
    `bin/mkprops.py`, then kept as source).  What is proved and what is partial: DESIGN.md §4. -/
 import Peppi.Lemmas.C12Cols
+import Peppi.Lemmas.C12Start
 import Peppi.Lemmas.C12
 import Peppi.Stream
 import Peppi.Prog
@@ -47,6 +48,18 @@ theorem parseEvent_extends (ps : ParseState) (bs : Bytes) (code : Nat) (ps' : Pa
 open Extracted in
 theorem handleEvent_extends (st : PState) (code : Nat) (buf : Bytes) : Res.Post (ColsExtend st) (handleEvent st code buf) :=
   _root_.Peppi.handleEvent_extends st code buf
+
+/- from `Peppi.Lemmas.C12Start` -/
+open Extracted in
+theorem parseStart_count (T : TextOracle) (bs : Bytes) (ps : ParseState) (rest : Bytes)
+    (h : parseStart T bs = .ok (ps, rest)) : ps.bytesRead + rest.length = bs.length :=
+  _root_.Peppi.parseStart_count T bs ps rest h
+
+/- from `Peppi.Lemmas.C12Start` -/
+open Extracted in
+theorem parseStart_then_event_count (T : TextOracle) (bs : Bytes) (ps : ParseState) (r1 : Bytes) (code : Nat) (ps' : ParseState) (r2 : Bytes)
+    (h1 : parseStart T bs = .ok (ps, r1)) (h2 : parseEvent ps r1 = .ok ((code, ps'), r2)) : ps'.bytesRead + r2.length = bs.length :=
+  _root_.Peppi.parseStart_then_event_count T bs ps r1 code ps' r2 h1 h2
 
 /- from `Peppi.Lemmas.C12` -/
 open Extracted in
